@@ -64,8 +64,7 @@ def binop(I, op, a, b):
     conc = (bool, int, float, str, list, tuple)
     if isinstance(a, conc) and isinstance(b, conc):
         if ty in (ast.Div, ast.FloorDiv, ast.Mod) and b == 0:
-            I.oblige(f"div_by_zero@{I.cur_line}", False, "safety")
-            raise E.PathEnd()
+            I.fail(f"div_by_zero@{I.cur_line}")
         r = _PYOPS[ty](a, b)
         return r
     if isinstance(a, set) and isinstance(b, set):
@@ -231,8 +230,9 @@ def compare(I, op, a, b):
     if isinstance(a, (int, float)) and isinstance(b, (int, float)):
         return _CMP[ty](a, b)
     if a is None or b is None:
-        I.oblige(f"compare_None@{I.cur_line}", False, "safety")
-        raise E.PathEnd()
+        if I.spec:
+            return False     # unspecified; always guarded by `is None`
+        I.fail(f"compare_None@{I.cur_line}")
     if not (_scalar(a) and _scalar(b)):
         raise Unsupported(f"comparison of {a!r} and {b!r}")
     x, y = unify(a, b)
@@ -280,8 +280,7 @@ def norm_index(I, i, n, what="index"):
     """python index with negative wrap; obligation: in range."""
     if isinstance(i, int) and isinstance(n, int):
         if not -n <= i < n:
-            I.oblige(f"{what}_in_range@{I.cur_line}", False, "safety")
-            raise E.PathEnd()
+            I.fail(f"{what}_in_range@{I.cur_line}")
         return i + n if i < 0 else i
     i_, n_ = to_int(i), to_int(n)
     if isinstance(i, int) and i >= 0:
@@ -365,8 +364,7 @@ def getitem(I, base, key):
         if base.kind == "row":
             if isinstance(key, str):
                 if key not in val.fields:
-                    I.oblige(f"field_{key}@{I.cur_line}", False, "safety")
-                    raise E.PathEnd()
+                    I.fail(f"field_{key}@{I.cur_line}")
                 return val.fields[key]
             raise Unsupported("non-field subscript of a record")
         if base.kind == "list":
@@ -382,8 +380,7 @@ def getitem(I, base, key):
         if isinstance(val, SymStruct):
             if isinstance(key, str):
                 if key not in val.fields:
-                    I.oblige(f"field_{key}@{I.cur_line}", False, "safety")
-                    raise E.PathEnd()
+                    I.fail(f"field_{key}@{I.cur_line}")
                 return Cell("arr", val.fields[key], view_of=base)
             if isinstance(key, slice):
                 lo, hi = slice_bounds(I, key, val.length)
@@ -421,8 +418,7 @@ def getitem(I, base, key):
             return base[key]
         if isinstance(key, int):
             if not -len(base) <= key < len(base):
-                I.oblige(f"index_in_range@{I.cur_line}", False, "safety")
-                raise E.PathEnd()
+                I.fail(f"index_in_range@{I.cur_line}")
             return base[key]
         if is_z3(key):
             n = len(base)
@@ -435,8 +431,7 @@ def getitem(I, base, key):
         if isinstance(key, StrVal):
             raise Unsupported("symbolic dict key")
         if key not in base:
-            I.oblige(f"key_{key}@{I.cur_line}", False, "safety")
-            raise E.PathEnd()
+            I.fail(f"key_{key}@{I.cur_line}")
         return base[key]
     if isinstance(base, str) and isinstance(key, (int, slice)):
         return base[key]
@@ -516,8 +511,7 @@ def setitem(I, base, key, value):
         if isinstance(key, str):
             f = dict(val.fields)
             if key not in f:
-                I.oblige(f"field_{key}@{I.cur_line}", False, "safety")
-                raise E.PathEnd()
+                I.fail(f"field_{key}@{I.cur_line}")
             f[key] = _coerce_like(v, f[key])
             base.write(SymRow(f))
             return
@@ -525,8 +519,7 @@ def setitem(I, base, key, value):
     if isinstance(val, SymStruct):
         if isinstance(key, str):
             if key not in val.fields:
-                I.oblige(f"field_{key}@{I.cur_line}", False, "safety")
-                raise E.PathEnd()
+                I.fail(f"field_{key}@{I.cur_line}")
             old = val.fields[key]
             if isinstance(v, SymSeq):
                 I.oblige(f"assign_len@{I.cur_line}",
@@ -708,8 +701,7 @@ def unpack(I, value, n):
         value = value.value
     if isinstance(value, (tuple, list)):
         if len(value) != n:
-            I.oblige(f"unpack_len@{I.cur_line}", False, "safety")
-            raise E.PathEnd()
+            I.fail(f"unpack_len@{I.cur_line}")
         return list(value)
     raise Unsupported(f"unpack of {value!r}")
 
@@ -954,8 +946,7 @@ def getattr(I, base, attr):
     if m is not None:
         return m(I, base)
     if base is None:
-        I.oblige(f"None_has_no_{attr}@{I.cur_line}", False, "safety")
-        raise E.PathEnd()
+        I.fail(f"None_has_no_{attr}@{I.cur_line}")
     raise Unsupported(f"attribute .{attr} of {base!r} (line {I.cur_line})")
 
 
@@ -1056,8 +1047,7 @@ def _pylist_extend(I, b, x):
 @method("pylist", "index")
 def _pylist_index(I, b, x):
     if x not in b:
-        I.oblige(f"list_index@{I.cur_line}", False, "safety")
-        raise E.PathEnd()
+        I.fail(f"list_index@{I.cur_line}")
     return b.index(x)
 
 
@@ -1099,8 +1089,7 @@ def _pydict_pop(I, b, k, *d):
         return b.pop(k)
     if d:
         return d[0]
-    I.oblige(f"dict_pop_{k}@{I.cur_line}", False, "safety")
-    raise E.PathEnd()
+    I.fail(f"dict_pop_{k}@{I.cur_line}")
 
 
 @method("pystr", "lower")
@@ -1216,8 +1205,7 @@ def _minmax(I, args, kw, is_max):
     else:
         items = list(args)
     if not items:
-        I.oblige(f"empty_minmax@{I.cur_line}", False, "safety")
-        raise E.PathEnd()
+        I.fail(f"empty_minmax@{I.cur_line}")
     if all(isinstance(x, (int, float)) for x in items):
         return max(items) if is_max else min(items)
     out = items[0]
@@ -1692,3 +1680,8 @@ def _spec_row_eq(I, a, b):
 @lib("spec.isnan")
 def _spec_isnan(I, x):
     return _isnan(I, x)
+
+
+@lib("spec.isfinite")
+def _spec_isfinite(I, x):
+    return _isfinite(I, x)
